@@ -2,6 +2,7 @@
 working tree, HTTP + gRPC + RESP enabled, independent clients (harness/srv/src/bin/wire.rs)."""
 import json
 import os
+import re
 from .. import common as C
 from .. import respconv as RC
 from . import conncheck
@@ -95,7 +96,7 @@ def run_wire(ctx, prop):
     n_ok = 0
     n_eval = 0
     # ---------------------------------------------------------------- fidelity (C12) / cross-protocol sessions (C09)
-    if prop in ("C12", "C09"):
+    if prop in ("C12", "C09", "C15"):
         ncases = (60 if quick else 700) if prop == "C12" else (25 if quick else 200)
         out = C.run_harness(ctx, bins["wire"], ["--server", server, "--mode", "fidelity", "--cases", ncases, "--seed", ctx.seed], timeout=2400)
         rows = _lines(out)
@@ -105,7 +106,21 @@ def run_wire(ctx, prop):
             ctx.violations.append({"what": "%s: the server process did not survive the session mix" % prop, "input": {"seed": ctx.seed}})
         terms, idx = [], []
         dist = {"sessions": len(cases), "ops": 0, "by_protocol": [0, 0, 0], "malformed": 0, "int32_saturated_grpc": 0, "not_exact_timing": 0}
+        # C15 on the wire: expected counters [total, http, grpc, redis, allowed, denied, errors] accumulated from what the clients were told
+        cum = [0] * 7
+        server_of = {}
+        cur_server = -1
+        for r in rows:
+            if r.get("mode") == "server":
+                cur_server += 1
+            elif r.get("mode") == "fidelity":
+                server_of[id(r)] = cur_server
+        last_server = None
+        metrics_points = 0
         for n, c in enumerate(cases):
+            if server_of.get(id(c)) != last_server:
+                cum = [0] * 7
+                last_server = server_of.get(id(c))
             exact = c["elapsed_ms"] < 300
             dist["not_exact_timing"] += not exact
             ops = []
@@ -123,6 +138,21 @@ def run_wire(ctx, prop):
                     ctx.known_hits = getattr(ctx, "known_hits", 0) + 1
                     if c.get("witness") == "F8" and len(c["ops"]) == 2 and c["ops"][1]["wire"].get("reset", 0) > 2147483647:
                         ctx.known_witness_reproduced = True
+                # what this exchange must add to the counters (handler reached? outcome told to the client)
+                if "broken" not in w:
+                    if o["proto"] == 0:
+                        counted = not ("err" in w and re.match(r"http4\d\d", w["err"]))          # rejected by the extractor: handler not reached
+                        kind = "err" if "err" in w else ("allowed" if w["a"] else "denied")
+                    elif o["proto"] == 1:
+                        counted = True
+                        kind = "err" if "err" in w else ("allowed" if w["a"] else "denied")
+                    else:
+                        counted = True                                                               # every RESP command is counted; only a denial decision counts as denied
+                        kind = "denied" if ("a" in w and not w["a"]) else "allowed"
+                    if counted:
+                        cum[0] += 1
+                        cum[1 + o["proto"]] += 1
+                        cum[{"allowed": 4, "denied": 5, "err": 6}[kind]] += 1
                 ops.append("(%s, %s)" % (wreq_term(o["sent"]), wobs_term(w)))
                 # implementation-side oracle straight from the property: the wire answer is the LIBRARY's answer for the request that
                 # reaches the limiter (real RateLimiter in the harness, documented defaults, whole seconds), an error iff refused/rejected
@@ -137,7 +167,18 @@ def run_wire(ctx, prop):
                         lib_bad = None if all(lib[k] == w[k] for k in keys) else "library answers %s, the wire carries %s" % (json.dumps(lib), json.dumps(w))
                     if lib_bad and not sess_bad:
                         sess_bad = "request %d of the session (%s%s): %s" % (len(ops), ["http", "grpc", "resp"][o["proto"]], ", " + o["malformed"] if "malformed" in o else "", lib_bad)
-            if sess_bad:
+            if prop == "C15" and c.get("metrics") is not None:
+                metrics_points += 1
+                mm = c["metrics"]
+                if mm[0] != mm[1] + mm[2] + mm[3] or mm[0] != mm[4] + mm[5] + mm[6]:
+                    ctx.violations.append({"what": "C15: GET /metrics at a quiescent point breaks the identities: [total,http,grpc,redis,allowed,denied,errors] = %s" % mm,
+                                           "input": {"session": [{"proto": ["http", "grpc", "resp"][o["proto"]], "sent": o["sent"], "wire": o["wire"]} for o in c["ops"]]}})
+                elif mm != cum:
+                    ctx.violations.append({"what": "C15: GET /metrics reports [total,http,grpc,redis,allowed,denied,errors] = %s at a quiescent point, but the clients of this server were told "
+                                                   "outcomes that add up to %s (denied = number of denial decisions returned)" % (mm, cum),
+                                           "input": {"last_session": [{"proto": ["http", "grpc", "resp"][o["proto"]], "sent": o["sent"], "wire": o["wire"]} for o in c["ops"]]}})
+                    cum = list(mm)      # resynchronise: report each discrepancy once
+            if sess_bad and prop != "C15":
                 ctx.violations.append({"what": "%s: the wire answer differs from the library's answer for the same request - %s" % (prop, sess_bad),
                                        "input": {"session": [{"proto": ["http", "grpc", "resp"][o["proto"]], "sent": o["sent"], "wire": o["wire"], "library": o.get("lib")} for o in c["ops"]]}})
             terms.append("(%s, %s)" % (C.coq_bool(exact), C.coq_list(ops)))
@@ -153,6 +194,8 @@ def run_wire(ctx, prop):
                                    "model": (res[0][:1500] if res else None)})
         n_ok += len(terms) - len(mism)
         n_eval += dist["ops"]
+        if prop == "C15":
+            dist["metrics_quiescent_points"] = metrics_points
         stats["fidelity"] = dist
         cov.setdefault("samples", []).append({"wire_session": cases[0]["ops"][:3]} if cases else {})
     # ---------------------------------------------------------------- simultaneous burst across protocols (C09)
